@@ -18,6 +18,7 @@ import (
 	"path/filepath"
 	"sort"
 
+	"verifharness/dpk"
 	"verifharness/vt"
 
 	"github.com/tink-crypto/tink-go/v2/daead"
@@ -67,6 +68,7 @@ func sivKey(e entry) (*aessiv.Key, error) {
 	if e.Variant == "NO_PREFIX" {
 		id = 0
 	}
+	defer dpk.Scribble(kb) // the caller's key buffer is overwritten once the key object exists
 	return aessiv.NewKey(secretdata.NewBytesFromData(kb, insecuresecretdataaccess.Token{}), id, p)
 }
 
@@ -76,7 +78,9 @@ func sivKey(e entry) (*aessiv.Key, error) {
 func buildDAEAD(route string, ks []entry) (tink.DeterministicAEAD, error) {
 	switch route {
 	case "subtle":
-		return dsubtle.NewAESSIV(vt.Unhex(ks[0].Key))
+		kb := vt.Unhex(ks[0].Key)
+		defer dpk.Scribble(kb) // the caller overwrites its key buffer after construction
+		return dsubtle.NewAESSIV(kb)
 	case "perkey":
 		k, err := sivKey(ks[0])
 		if err != nil {
@@ -121,7 +125,16 @@ type sivCase struct {
 
 func (c *sivCase) ev(name string) vt.Ev { return vt.Ev{"ev": name, "route": c.route, "ks": c.ks} }
 
+// bufs holds the driver-owned REUSED input buffers (one backing array per argument role): every call overwrites
+// them with its inputs and scribbles over them afterwards; logged inputs come from the pristine arguments, outputs
+// are rendered after the scribble.
+var bufs = dpk.Arenas{}
+
 func (c *sivCase) enc(pt, ad []byte, adNil bool) []byte {
+	return c.encKind("", pt, ad, adNil)
+}
+
+func (c *sivCase) encKind(kind string, pt, ad []byte, adNil bool) []byte {
 	var o1, o2 []byte
 	var e1, e2 error
 	a := ad
@@ -129,11 +142,15 @@ func (c *sivCase) enc(pt, ad []byte, adNil bool) []byte {
 		a = nil
 	}
 	p, pv := vt.Try(func() {
-		o1, e1 = c.d.EncryptDeterministically(pt, a)
-		o2, e2 = c.d.EncryptDeterministically(append([]byte{}, pt...), append([]byte{}, a...))
+		o1, e1 = c.d.EncryptDeterministically(bufs.In("pt", pt), bufs.In("ad", a))
+		bufs.ScribbleAll()
+		o1 = clone(o1)                                                             // after the scribble: an output aliasing an input buffer shows up as a wrong ciphertext
+		o2, e2 = c.d.EncryptDeterministically(bufs.In("pt", pt), bufs.In("ad", a)) // same buffers, reused
+		bufs.ScribbleAll()
+		o2 = clone(o2)
 	})
 	e := c.ev("enc")
-	e["pt"], e["ad"], e["adnil"] = vt.Hex(pt), vt.Hex(ad), adNil
+	e["kind"], e["pt"], e["ad"], e["adnil"] = kind, vt.Hex(pt), vt.Hex(ad), adNil
 	e["out"], e["out2"], e["err"], e["panic"] = vt.Hex(o1), vt.Hex(o2), e1 != nil || e2 != nil, p
 	if p {
 		e["panicVal"] = fmt.Sprint(pv)
@@ -148,7 +165,11 @@ func (c *sivCase) enc(pt, ad []byte, adNil bool) []byte {
 func (c *sivCase) dec(kind string, ct, ad []byte) {
 	var o []byte
 	var err error
-	p, pv := vt.Try(func() { o, err = c.d.DecryptDeterministically(ct, ad) })
+	p, pv := vt.Try(func() {
+		o, err = c.d.DecryptDeterministically(bufs.In("ct", ct), bufs.In("ad", ad))
+		bufs.ScribbleAll()
+		o = clone(o)
+	})
 	e := c.ev("dec")
 	e["kind"], e["ct"], e["ad"] = kind, vt.Hex(ct), vt.Hex(ad)
 	e["ok"], e["out"], e["panic"] = err == nil && !p, vt.Hex(o), p
@@ -371,6 +392,7 @@ func runSIV(w *vt.Writer, full bool) {
 		}
 		c := &sivCase{pl.route, pl.ks, d, w}
 		multi := len(pl.ks) > 1
+		var early [][2][]byte // the first encryptions of this primitive, repeated after all its other calls
 		// ciphertexts of the non-primary keys of a multi-key keyset, made by single-key primitives
 		var others []*sivCase
 		if multi {
@@ -421,6 +443,16 @@ func runSIV(w *vt.Writer, full bool) {
 						}
 					}
 				}
+				if len(early) < 4 && n > 0 {
+					early = append(early, [2][]byte{pt, ad})
+				}
+			}
+		}
+		// determinism across the whole life of the primitive: the earliest calls again, after every buffer the
+		// driver ever passed has been reused and scribbled over
+		for _, f := range early {
+			if ct := c.encKind("repeat", f[0], f[1], false); ct != nil {
+				c.dec("repeat", ct, f[1])
 			}
 		}
 	}
@@ -452,7 +484,11 @@ func runSIV(w *vt.Writer, full bool) {
 func xorend(w *vt.Writer, key, data, last []byte) {
 	var o []byte
 	var err error
-	p, pv := vt.Try(func() { o, err = verifhooks.AESCMACXOREndAndCompute(key, data, last) })
+	p, pv := vt.Try(func() {
+		o, err = verifhooks.AESCMACXOREndAndCompute(bufs.In("xkey", key), bufs.In("xdata", data), bufs.In("xlast", last))
+		bufs.ScribbleAll()
+		o = clone(o)
+	})
 	e := vt.Ev{"ev": "xorend", "route": "hook", "key": vt.Hex(key), "data": vt.Hex(data), "last": vt.Hex(last),
 		"out": vt.Hex(o), "err": err != nil, "panic": p}
 	if p {
@@ -532,12 +568,23 @@ func second(o1, o2 []byte) string {
 	return vt.Hex(o2)
 }
 
+// newKWP constructs the primitive from a caller buffer that is overwritten right after construction.
+func newKWP(key []byte) (*ksubtle.KWP, error) {
+	kb := clone(key)
+	defer dpk.Scribble(kb)
+	return ksubtle.NewKWP(kb)
+}
+
 func (c *kwpCase) wrap(kind string, pt []byte, deep bool) []byte {
 	var o1, o2 []byte
 	var e1, e2 error
 	p, pv := vt.Try(func() {
-		o1, e1 = c.k.Wrap(pt)
-		o2, e2 = c.k.Wrap(clone(pt))
+		o1, e1 = c.k.Wrap(bufs.In("wpt", pt))
+		bufs.ScribbleAll()
+		o1 = clone(o1)
+		o2, e2 = c.k.Wrap(bufs.In("wpt", pt)) // same buffer, reused
+		bufs.ScribbleAll()
+		o2 = clone(o2)
 	})
 	e := vt.Ev{"ev": "wrap", "route": "subtle", "kind": kind, "key": vt.Hex(c.key), "pt": vt.Hex(pt), "deep": deep,
 		"ok": e1 == nil && e2 == nil && !p, "out": vt.Hex(o1), "out2": second(o1, o2), "panic": p}
@@ -554,7 +601,11 @@ func (c *kwpCase) wrap(kind string, pt []byte, deep bool) []byte {
 func (c *kwpCase) unwrap(kind string, ct []byte, deep bool) {
 	var o []byte
 	var err error
-	p, pv := vt.Try(func() { o, err = c.k.Unwrap(ct) })
+	p, pv := vt.Try(func() {
+		o, err = c.k.Unwrap(bufs.In("wct", ct))
+		bufs.ScribbleAll()
+		o = clone(o)
+	})
 	e := vt.Ev{"ev": "unwrap", "route": "subtle", "kind": kind, "key": vt.Hex(c.key), "ct": vt.Hex(ct), "deep": deep,
 		"ok": err == nil && !p, "out": vt.Hex(o), "panic": p}
 	if p {
@@ -662,7 +713,7 @@ func runKWP(w *vt.Writer, full bool) {
 	kwpLengths(w, r, seed, full)
 	for _, kl := range []int{16, 32} {
 		key := vt.Bytes(r, kl)
-		k, err := ksubtle.NewKWP(key)
+		k, err := newKWP(key)
 		if err != nil {
 			vt.Fatal("NewKWP(%d): %v", kl, err)
 		}
@@ -698,7 +749,7 @@ func kwpLengths(w *vt.Writer, r *rand.Rand, seed int, full bool) {
 			if rep == 1 {
 				key = make([]byte, kl)
 			}
-			k, err := ksubtle.NewKWP(key)
+			k, err := newKWP(key)
 			if err != nil {
 				vt.Fatal("NewKWP(%d): %v", kl, err)
 			}
@@ -724,6 +775,7 @@ func kwpLengths(w *vt.Writer, r *rand.Rand, seed int, full bool) {
 					lens = append(lens, n)
 				}
 			}
+			var early [][]byte // the first wrapped payloads of this primitive, repeated after all its other calls
 			for li, n := range lens {
 				deep := n > 520 && (n >= 8185 || (li+seed)%97 == 0)
 				if full && n > 520 && n%64 < 2 {
@@ -735,6 +787,9 @@ func kwpLengths(w *vt.Writer, r *rand.Rand, seed int, full bool) {
 					continue
 				}
 				c.unwrap("exact", ct, deep)
+				if len(early) < 3 {
+					early = append(early, pt)
+				}
 				small := n <= 64 || full && n <= dense && rep == 0
 				// every single-byte corruption of small wrappings; a sample for long ones
 				for i := 0; i < len(ct); i++ {
@@ -759,6 +814,11 @@ func kwpLengths(w *vt.Writer, r *rand.Rand, seed int, full bool) {
 						copy(sw[16:24], ct[8:16])
 						c.unwrap("swapblocks", sw, false)
 					}
+				}
+			}
+			for _, pt := range early { // determinism after every passed buffer was reused and scribbled over
+				if ct := c.wrap("repeat", pt, true); ct != nil {
+					c.unwrap("repeat", ct, true)
 				}
 			}
 		}
@@ -792,7 +852,7 @@ func wycheproofKWP(w *vt.Writer) {
 		}
 		for _, t := range g.Tests {
 			key := vt.Unhex(t.Key)
-			k, err := ksubtle.NewKWP(key)
+			k, err := newKWP(key)
 			if err != nil {
 				vt.Fatal("wycheproof KEK refused: %v", err)
 			}
@@ -841,7 +901,7 @@ func replay(path string, w *vt.Writer) {
 		xorend(w, vt.Unhex(e.Key), vt.Unhex(e.Data), vt.Unhex(e.Last))
 	case "wrap", "unwrap":
 		key := vt.Unhex(e.Key)
-		k, err := ksubtle.NewKWP(key)
+		k, err := newKWP(key)
 		if err != nil {
 			vt.Fatal("replay: NewKWP: %v", err)
 		}
